@@ -188,6 +188,7 @@ pub fn pick_fam(rng: &mut Rng, long_arcs: bool, focus_cache: bool, focus_dom: bo
         if rng.chance(1, 3) { t.dom_mode = 1; }
         return Fam::Table(t);
     }
+    if long_arcs && rng.chance(1, 3) { return Fam::Knap(Knap::random_long(rng)); }
     if rng.chance(1, 5) && !long_arcs { Fam::Knap(Knap::random(rng)) } else { Fam::Table(TableDP::random(rng, long_arcs)) }
 }
 pub fn run_seq(a: &Args) {
